@@ -383,6 +383,12 @@ func genC10(g *Gen, tier string, w *bufio.Writer) {
 		if i%3 == 0 {
 			c := RandWFType(g, d)
 			fmt.Fprintf(w, "trans %s %s %s\n", EncodeType(a), EncodeType(b), EncodeType(c))
+			// least upper bound: an upper bound t of a and b built by the code itself, widened by c
+			t := octosql.TypeSum(octosql.TypeSum(a, b), c)
+			if g.Chance(1, 3) {
+				t = MutateType(g, t, d)
+			}
+			fmt.Fprintf(w, "lub %s %s %s\n", EncodeType(a), EncodeType(b), EncodeType(t))
 			fmt.Fprintf(w, "sum %s %s\n", EncodeType(a), EncodeType(b))
 			fmt.Fprintf(w, "inter %s %s\n", EncodeType(a), EncodeType(b))
 		}
@@ -462,6 +468,11 @@ func driveC10(toks []string) string {
 		a, r := ParseType(toks[1:])
 		b, _ := ParseType(r)
 		return relStr(a.Is(b)) + " " + EncodeType(octosql.TypeSum(a, b)) + " ; " + EncodeType(octosql.TypeSum(b, a))
+	case "lub":
+		a, r := ParseType(toks[1:])
+		b, r := ParseType(r)
+		t, _ := ParseType(r)
+		return relStr(a.Is(t)) + " " + relStr(b.Is(t)) + " " + relStr(octosql.TypeSum(a, b).Is(t))
 	case "trans":
 		a, r := ParseType(toks[1:])
 		b, r := ParseType(r)
